@@ -13,7 +13,7 @@ var (
 	schemes   = []string{"http", "https"}
 	domains   = []string{"example.com", "a.example.com", "evil-example.com", "example.com.evil.io", "xexample.com", "site.io", "localhost", "127.0.0.1"}
 	ports     = []string{"", "", "", ":8080", ":443"}
-	reqHosts  = []string{"api.site.io", "example.com", "app.example.com", "localhost:3000", "site.io:8080", "API.Site.io", "[::1]:3000", "example.com."}
+	reqHosts  = []string{"api.site.io", "example.com", "app.example.com", "localhost:3000", "site.io:8080", "API.Site.io", "[::1]:3000", "example.com.", "evil.test", "evil.com"}
 	backends  = []string{"st", "st", "st", "st", "ss", "ss", "sm", "sm", "mem"}
 	extractor = []string{"header", "header", "form", "query", "param", "cookie", "custom"}
 	unsafeM   = []string{"POST", "POST", "POST", "PUT", "DELETE", "PATCH"}
@@ -308,6 +308,9 @@ func genCase(r *gen.Rand, wr *gen.Writer) (cfgIn, []op, string) {
 	cls := make([]client, ncl)
 	seen := []string{"zz", "t999"}
 	seenSid := []string{"forged", "s999"}
+	// origins (scheme://host) that an earlier unsafe request of this history presented as ITS OWN
+	// origin: a later request to another Host must not profit from them
+	var ownOrigins []string
 	n := 3 + r.Intn(10)
 	var ops []op
 	var obs []string
@@ -450,15 +453,71 @@ func genCase(r *gen.Rand, wr *gen.Writer) (cfgIn, []op, string) {
 		default:
 			o.origin = genOriginLike(r, c, o.host, o.https, false)
 		}
+		// the Host header varies within a history; the origin decision of one request must not leak
+		// into the next (the gate is a function of configuration and request only)
+		sch := "http"
+		if o.https {
+			sch = "https"
+		}
+		own := sch + "://" + strings.ToLower(o.host)
+		present := func(tok string) { // the token through the configured extractor, nothing else
+			o.hdr, o.qry, o.form, o.param, o.custom = "", "", "", "", ""
+			switch c.ext {
+			case "header":
+				o.hdr = tok
+			case "form":
+				o.form = tok
+			case "query":
+				o.qry = tok
+			case "param":
+				o.param = tok
+			case "custom":
+				o.custom = tok
+			}
+			if c.ext == "param" && (o.param == "" || !tokenSafe(o.param)) {
+				o.param = "none"
+			}
+		}
+		crossHost := false
+		if unsafe && r.Chance(1, 8) {
+			// primer: an unsafe request from its own origin (Origin, or on https Referer only), mostly
+			// without a token
+			if o.https && r.Chance(1, 2) {
+				o.origin, o.referer = gen.Pick(r, []string{"", "null"}), own+gen.Pick(r, []string{"", "/", "/page?x=1"})
+			} else {
+				o.origin = own
+			}
+			if r.Chance(2, 3) {
+				present("")
+			}
+			wr.Count("own-origin-primer")
+		} else if unsafe && len(ownOrigins) > 0 && cl.ck != "" && r.Chance(1, 4) {
+			// a foreign origin that an earlier request (to another Host) presented as its own, now
+			// with this client's valid cookie, session and token
+			if po := gen.Pick(r, ownOrigins); po != own {
+				o.ck, o.sc = cl.ck, cl.sc
+				present(cl.ck)
+				if o.https && strings.HasPrefix(po, "https://") && r.Chance(1, 2) {
+					o.origin, o.referer = gen.Pick(r, []string{"", "null"}), po+gen.Pick(r, []string{"", "/", "/page?x=1"})
+				} else {
+					o.origin = po
+				}
+				crossHost = true
+				wr.Count("cross-host-origin")
+			}
+		}
+		if unsafe && (strings.ToLower(o.origin) == own || ((o.origin == "" || strings.ToLower(o.origin) == "null") && o.https && strings.HasPrefix(strings.ToLower(o.referer), own))) {
+			ownOrigins = append(ownOrigins, own)
+		}
 		// the protected handler calls DeleteToken: on safe requests, and "logout" style on unsafe ones
-		if (!unsafe && r.Chance(1, 6)) || (unsafe && r.Chance(1, 9)) {
+		if !crossHost && ((!unsafe && r.Chance(1, 6)) || (unsafe && r.Chance(1, 9))) {
 			o.del = true
 		}
-		if (c.next && r.Chance(1, 4)) || (!c.next && r.Chance(1, 25)) {
+		if !crossHost && ((c.next && r.Chance(1, 4)) || (!c.next && r.Chance(1, 25))) {
 			o.skip = true
 			wr.Count("skip-header")
 		}
-		if faultsOK && r.Chance(1, 7) {
+		if !crossHost && faultsOK && r.Chance(1, 7) {
 			o.faults = gen.Pick(r, []string{"g", "s", "d", "gs", "sd", "gsd"})
 			wr.Count("faulted-req")
 		}
